@@ -21,7 +21,8 @@ Lemma timeout_ok_exact tol last nw :
   (0 <= tol)%Z -> timeout_ok tol last last nw nw (timeout_of nw last) = true.
 Proof.
   intros Htol. unfold timeout_ok, timeout_of. destruct (nw <=? last)%Z eqn:E.
-  - apply Z.leb_le in E. rewrite Z.eqb_refl. cbn [andb].
+  - apply Z.leb_le in E.
+    assert (H0 : ((0 <=? ns_per_ms) && (ns_per_ms <=? ns_per_ms))%Z = true) by reflexivity. rewrite H0. cbn [andb].
     assert (H : (nw - tol <=? last)%Z = true) by (apply Z.leb_le; lia). rewrite H. reflexivity.
   - apply Z.leb_gt in E. apply orb_true_iff. right.
     assert (H1 : (last <? nw)%Z = true) by (apply Z.ltb_lt; lia).
